@@ -138,6 +138,31 @@ func solveAll(obs []*Oblig, timeoutS int, mode string) {
 		}(o, script)
 	}
 	wg.Wait()
+	// robustness against machine load: obligations left undecided (time-out) are retried one at a time with a
+	// long time limit before they are reported
+	for _, o := range obs {
+		if o.Status != "undecided" || o.Output == "script too large" {
+			continue
+		}
+		var script string
+		if o.Cover {
+			script = Script(o.Hyps, nil, nil)
+		} else {
+			script = Script(o.Hyps, o.Goal, nil)
+		}
+		r := Solve(script, 90, 0, "first")
+		want := "unsat"
+		if o.Cover {
+			want = "sat"
+		}
+		o.Backend, o.Seconds, o.Output = r.Backend+"(retry)", o.Seconds+r.Seconds, r.Output
+		switch {
+		case r.Status == want:
+			o.Status = "proved"
+		case r.Status == "sat" || r.Status == "unsat":
+			o.Status = "refuted"
+		}
+	}
 }
 
 // propagateEqs substitutes, in goal, every non-constant term t for which a hypothesis t == c (c constant)
@@ -497,6 +522,22 @@ func cmdCheck(args []string) int {
 		os.MkdirAll(filepath.Join(verifDir, "evidence"), 0o755)
 		data, _ := json.MarshalIndent(ev, "", " ")
 		os.WriteFile(filepath.Join(verifDir, "evidence", prop+".json"), data, 0o644)
+	}
+	if os.Getenv("GOVC_SLOW") != "" {
+		type sl struct {
+			n string
+			s float64
+		}
+		var sls []sl
+		for _, g := range groups {
+			for _, o := range g.Instances {
+				sls = append(sls, sl{g.Name, o.Seconds})
+			}
+		}
+		sort.Slice(sls, func(i, j int) bool { return sls[i].s > sls[j].s })
+		for i := 0; i < len(sls) && i < 12; i++ {
+			fmt.Printf("SLOW %.2fs %s\n", sls[i].s, sls[i].n)
+		}
 	}
 	fmt.Printf("%s: %d obligations, %d discharged, %d known findings, %d violations, %d functions, %.1fs\n", prop, nObl, nDis, nKnown, violations, len(results), wall)
 	if *verbose {
